@@ -196,6 +196,11 @@ Definition dec_tinput (x : sx) : option tinput :=
   | _ => None
   end.
 
+(* nominations of a dynamic-order script: duplicate-free lists of existing agents *)
+Definition rows_ok (sc : script) : bool :=
+  forallb (fun r => nodupb (r_next r) && forallb (fun a => Nat.ltb a (sc_n sc)) (r_next r))
+          (sc_rows sc).
+
 Definition ti_pm (i : tinput) (a : nat) : nat := nth a (ti_pmap i) O.
 
 Definition t_align (i : tinput) : align :=
@@ -349,7 +354,7 @@ Section ChkTrainer.
     else if flagged a ldone then 62
     else if negb (existsb (fun kv => Nat.eqb (fst kv) a && (snd kv =? q_obs q)%Z) lobs) then 62
     else if negb (Nat.eqb (q_pid q) (ti_pm i a)) then 66
-    else if clearn sc a
+    else if memb a (corder sc)          (* a learning agent of the simulation *)
             && negb ((fst (nth a (ti_asp i) (0, 0)) =? fst (nth (q_pid q) (ti_psp i) (0, 0)))%Z)
          then 66
     else 0%Z.
@@ -384,8 +389,8 @@ Section ChkTrainer.
   (* clause 64, the other direction: stopping early only after __all__ *)
   Definition stops_ok (its : list (iter Z Z Z)) : bool :=
     Nat.eqb (length its) (ti_h i)
-    || match last its {| it_q := []; it_sent := []; it_resp := RError |} with
-       | {| it_resp := ROut o |} => o_all o
+    || match it_resp (last its {| it_q := []; it_sent := []; it_resp := RError |}) with
+       | ROut o => o_all o
        | _ => false
        end && negb (Nat.eqb (length its) O).
 
